@@ -46,6 +46,11 @@ type scenario struct {
 	PE       bool     // check PE checksum in "new complete"
 	NoVerify bool     // output has no self-contained verifier (detached)
 	OutLink  string   // "hard" | "sym": the pre-existing destination is another name (hard link / symlink) of the input
+	// Follow: after a KILLED run, a second, uninterrupted run signs this other
+	// (smaller) fixture to the same destination in the same directory, with
+	// whatever the killed run left behind still there. Its output must be the
+	// complete signed Follow file.
+	Follow string
 }
 
 const conf = `tokens:
@@ -294,6 +299,17 @@ func (s scenario) classify(p prepared, refSize int64) (class string, detail stri
 	return "new", ""
 }
 
+// followMatches: the signed output starts with the unsigned input up to the
+// PE checksum / certificate directory fields (a cheap identity check on top of
+// "verifies": the second run must have signed ITS input, not a leftover).
+func followMatches(signed []byte, inputPath string) bool {
+	in, err := os.ReadFile(inputPath)
+	if err != nil || len(signed) < 64 || len(in) < 64 {
+		return false
+	}
+	return bytes.Equal(signed[:0x3c], in[:0x3c]) && len(signed) >= len(in)
+}
+
 func tempsLeft(dir string) []string {
 	var out []string
 	ents, _ := os.ReadDir(dir)
@@ -395,6 +411,8 @@ func main() {
 	run = vlib.NewRun("C13", "fault_enumeration")
 	scs := []scenario{
 		{Name: "pe-rewrite-newpath", Input: "ClassLibrary1.dll", InName: "in.dll", OutName: "out.dll", PE: true},
+		// the killed run writes a LONGER output than the run that follows it
+		{Name: "pe-rewrite-newpath-then-smaller-file", Input: "WindowsFormsApplication1.exe", InName: "in.exe", OutName: "out.bin", PE: true, Follow: "ClassLibrary1.dll"},
 		{Name: "pe-rewrite-samepath-hardlinked", Input: "ClassLibrary1.dll", InName: "in.dll", HardLink: true, PE: true},
 		{Name: "cat-wholefile", Input: "hyperv.cat", InName: "in.cat", OutName: "out.cat"},
 		{Name: "msi-copy-then-edit", Input: "dummy.msi", InName: "in.msi", OutName: "out.msi"},
@@ -653,6 +671,29 @@ func main() {
 			// the same scenario is still reported under destination-torn
 			run.Violation("pe-checksum-fixup-after-commit:"+jb.mode, desc+": "+detail, id)
 		}
+		if jb.mode == "kill" && r.killed && jb.s.Follow != "" && jb.s.OutName != "" {
+			// second run in the directory as the killed one left it
+			fin := filepath.Join(d, "follow-"+jb.s.InName)
+			copyFile(filepath.Join(relicx.Packages, jb.s.Follow), fin)
+			r2 := trace(d, []string{"-c", "relic.yml", "sign", "-k", "rsaA", "-f", "follow-" + jb.s.InName, "-o", jb.s.OutName}, "")
+			run.Eval(1)
+			fdesc := desc + "; then an uninterrupted run signing " + jb.s.Follow + " to the same destination"
+			if r2.rc != 0 {
+				run.Violation("second-run-after-kill-fails:"+jb.s.Name, fmt.Sprintf("%s: exit %d: %s", fdesc, r2.rc, r2.stderr), id)
+			} else {
+				fs := jb.s
+				fs.PE = jb.s.PE
+				fp := p
+				fp.oldOut = nil
+				if cls, det := fs.classify(fp, 0); cls != "new" {
+					run.Violation("second-run-after-kill-output-not-complete:"+jb.s.Name, fmt.Sprintf("%s: destination is %s: %s", fdesc, cls, det), id)
+				} else if got, _ := os.ReadFile(p.out); !followMatches(got, filepath.Join(relicx.Packages, jb.s.Follow)) {
+					run.Violation("second-run-after-kill-output-is-not-the-second-input:"+jb.s.Name, fdesc, id)
+				} else {
+					run.Outcome("second-run-after-kill:complete")
+				}
+			}
+		}
 		if jb.mode == "error" || !r.killed {
 			if t := tempsLeft(d); len(t) > 0 {
 				run.Violation("temp-left-after-handled-error:"+jb.s.Name, fmt.Sprintf("%s: %v (rc=%d)", desc, t, r.rc), id)
@@ -679,7 +720,7 @@ func main() {
 	run.Set("scenarios", names)
 	h := sha256.Sum256([]byte(conf))
 	run.Set("driver", map[string]any{"binary": "relic main package built from /repo's current tree + init(){runtime.LockOSThread()}", "config_sha256": fmt.Sprintf("%x", h[:6])})
-	run.Rule("for each output scenario x destination {absent,present}: every main-thread file-system-mutating system call k of a complete `relic sign` run (recorded by strace in pass 0) is a boundary; one run is killed (SIGKILL on entry to call k) and one run has call k fail; distinct_nontrivial = injections whose strace log confirms the addressed boundary was hit")
+	run.Rule("for each output scenario x destination {absent,present}: every main-thread file-system-mutating system call k of a complete `relic sign` run (recorded by strace in pass 0) is a boundary; one run is killed (SIGKILL on entry to call k) and one run has call k fail; in one scenario every killed run is followed by an uninterrupted run that signs a smaller file to the same destination in the directory as the killed run left it; distinct_nontrivial = injections whose strace log confirms the addressed boundary was hit")
 	run.Assume("process kill only: un-synced data / power loss are outside the statement")
 	run.Assume("'complete new content' = accepted by relic verify with integrity and chain checking (for detached/inline PGP, which relic cannot verify stand-alone: same size as the uninterrupted run's output), and (PE) CheckSum field consistent; byte equality is impossible because signatures embed the signing time")
 	run.Assume("leftover temporaries after SIGKILL are not a violation; after a handled error or success they are")
